@@ -1611,6 +1611,65 @@ def gen_aborted(rng):
     return c
 
 
+def gen_base_exc(rng):
+    """a value whose __str__ raises a BaseException that is not an Exception (KeyboardInterrupt), together with a string limit
+    smaller than any type-and-identity placeholder (4 / 8 / 12): as a local (also inside a list local) or reachable through a
+    watch only.  On the unchanged code the search that meets it is left by the exception (no snapshot, or an error watch):
+    outside the claimed domain of totality (C06) — what IS delivered is judged: every delivered value obeys the limit and the flag."""
+    c = gen_case(rng, nobj=rng.choice([3, 6, 10]), watches=False, stream='base-exc',
+                 lim={'vars': None, 'str': rng.choice([4, 8, 12]), 'coll': None, 'depth': None})
+    specs = c['objs']
+    specs.append({'t': 'outside', 'k': 'str_base_exception'})
+    bad = len(specs) - 1
+    k = rng.random()
+    if k < 0.35:
+        c['locals'] = c['locals'] + [['stopper', bad]]
+    elif k < 0.6:
+        specs.append({'t': 'list', 'e': [0, bad]})
+        c['locals'] = c['locals'] + [['holder', len(specs) - 1]]
+    else:
+        c['globals'] = [['STOPPER', bad]]
+        c['actions'][0]['watches'] = rng.choice([['STOPPER'], ['[1000, STOPPER]', '"after"'], ['(STOPPER,)']])
+    rng.shuffle(c['locals'])
+    return c
+
+
+K_LOGFMT = 'C16/snapshot-log-format-error-loses-snapshot'
+
+
+def log_format_fails(case):
+    """structural: the log message of a snapshot action has a field with a NUMERIC format spec; values are interpolated as text,
+    so formatting raises ValueError out of process_log"""
+    import string
+    for a in case['actions']:
+        if a.get('log') is not None:
+            for _, field, spec, _ in string.Formatter().parse(a['log']):
+                if field is not None and spec and spec[-1] in 'dfeEgGxXobn%':
+                    return True
+    return False
+
+
+def gen_log_format(rng):
+    """a snapshot action whose log message CANNOT be formatted (numeric format spec on a value interpolated as text) over an
+    expression whose value is not among the frame's variables, deferred (line_capture / method_capture), the line returning /
+    raising that same object: the LOG field was evaluated and numbered before the formatting failed."""
+    cap = rng.choice(['return', 'return', 'exception'])
+    c = gen_case(rng, nobj=rng.choice([3, 6, 10]), watches=rng.random() < 0.3, capture=cap, stream='log-format',
+                 frame_type=rng.choice(['single_frame', 'single_frame', 'no_frame']),
+                 lim={'vars': None, 'str': rng.choice([None, 8]), 'coll': None, 'depth': rng.choice([None, 3])})
+    specs = c['objs']
+    specs.append({'t': 'str', 'v': '0.25'})
+    specs.append(rng.choice([{'t': 'list', 'e': [len(specs) - 1, 0]},
+                             {'t': 'dict', 'k': [[{'s': 'eur'}, len(specs) - 1], [{'s': 'usd'}, 0]]}]))
+    c['globals'] = [['RATES', len(specs) - 1]]
+    names = [nm for nm, _ in c['locals'] if nm.isidentifier() and nm.isascii()]
+    good = ('%s={%s} ' % (names[0], names[0])) if names and rng.random() < 0.5 else ''
+    c['actions'][0]['log'] = good + rng.choice(['rate={RATES:.4f}', 'n={RATES:d}', 'r={RATES:08.3f} done'])
+    c['capture_expr'] = rng.choice(['RATES', 'RATES', '[RATES, 1000]']) if cap == 'return' else 'ValueError(RATES)'
+    c['stage'] = rng.choice(['line_capture', 'method_capture'])
+    return c
+
+
 def gen_huge(rng):
     """one HUGE mapping (10 001 … 30 000 entries — mappings are not capped by the collection limit) reachable from the frame
     while other values still wait in the search: as an early local, or as an attribute of the first local, followed by
